@@ -116,7 +116,7 @@ CHECKS.update({
         'No zero-sized dimensions; only the illegal categories the property names are judged.',
         'DESIGN.md section 4 (C13)'),
     'C14': (
-        'exhaustive enumeration of the subscript grammar over {h,i,j,k} (119 472 numpy-valid strings) with a numpy adjoint oracle and a spec-side must-accept predicate, plus Hypothesis operator-level cases (shapes, shared/per-leaf blocks, multi-leaf inputs)',
+        'exhaustive enumeration of the subscript grammar over {h,i,j,k} (2 217 984 strings: repeated letters, ellipsis at any position) with a numpy adjoint oracle and a spec-side must-accept predicate, plus Hypothesis operator-level cases (shapes, shared/per-leaf blocks, multi-leaf inputs)',
         'Every string of the grammar is either rejected or rewritten into subscripts that pass the exact integer adjoint '
         'test; strings in the must-accept class must be transposed; operator-level mv / T.mv / structures agree with '
         'np.einsum. exhaustive: true refers to the enumerated grammar only. ' + EXPL,
